@@ -37,6 +37,16 @@ func (r *abort2) StoreBroadcastMessage(msg round.Message) error {
 		return round.ErrInvalidContent
 	}
 
+	// the message must carry a proof for k and one chi proof for every other party, nothing else
+	if body.YHat == nil || body.KProof == nil || body.KProof.Plaintext == nil || len(body.ChiProofs) != r.N()-1 {
+		return round.ErrNilFields
+	}
+	for id, chiProof := range body.ChiProofs {
+		if id == from || !r.PartyIDs().Contains(id) || chiProof == nil || chiProof.Plaintext == nil {
+			return round.ErrNilFields
+		}
+	}
+
 	alphas := make(map[party.ID]curve.Scalar, len(body.ChiProofs))
 	for id, chiProof := range body.ChiProofs {
 		alphas[id] = r.Group().NewScalar().SetNat(chiProof.Plaintext.Mod(r.Group().Order()))
